@@ -1,5 +1,6 @@
 import GldapModel.Props.C01
 import GldapModel.Proofs.FilterRT
+import GldapModel.Proofs.FilterInj
 /-! # C01, the filter: "filter (semantically) ... equal what the client encoded"
 
 Until now go-ldap's `DecompileFilter` was a parameter of the decode model (`Env.decompile`) and the
@@ -53,6 +54,17 @@ theorem C01_current_filter (ext : Nat → Bytes → Bool) (tt : UInt8) (htt : tt
 theorem C01_filter_value_faithful (a v v' : Bytes) (h : Filter.render (.eq a v) = Filter.render (.eq a v')) : v = v' :=
   Filter.ava_render_injective a [61] v v' (by simpa [Filter.render] using h)
 
+/-- C01's "filter (semantically)": two filters within RFC 4511 / 4515's grammar (`Filter.WF`: attribute
+    descriptions, matching rules and types of letters, digits, `-`, `.`, `;`; substring parts non-empty with
+    `initial` only first and `final` only last; matching rule not spelled `dn`) that reach the handler as the same
+    string are the same filter - whatever their depth and width. So the string a handler, a route criterion or the
+    test directory sees determines the client's filter completely (`Filter.render_injective`; more is true:
+    `Filter.render_prefix`, the rendering is a prefix code, which is why lists of sub-filters need no separator). -/
+theorem C01_filter_faithful (tt : UInt8) (htt : tt ≠ 0) (f g : Filter.Filter) (wf : Filter.WF f) (wg : Filter.WF g)
+    (h : Filter.decompile true (Filter.encode tt f) = Filter.decompile true (Filter.encode tt g)) : f = g := by
+  rw [Filter.decompile_encode tt htt f, Filter.decompile_encode tt htt g] at h
+  exact Filter.render_injective f g wf wg (by simpa using h)
+
 /-- "(cn:dn:=foo)" -/
 def exDnFilter : Filter.Filter := .ext none (some [99, 110]) [102, 111, 111] true
 
@@ -78,6 +90,10 @@ def exNested : Filter.Filter :=
         .present [109, 97, 105, 108]]
 
 example : Filter.decompile true (Filter.encode 1 exNested) = some (Filter.render exNested) := by decide
+/-- ... and it is within the grammar (the hypotheses of `C01_filter_faithful` are satisfiable by a filter with
+    every kind of part) -/
+example : Filter.WF exNested := by
+  simp [exNested, Filter.WF, Filter.WFAll, Filter.LeafWF, Filter.SubsWF, Filter.Plain, Filter.plainByte]
 example : Filter.render exNested =
     [40, 38, 40, 99, 110, 58, 100, 110, 58, 50, 46, 53, 46, 49, 51, 46, 50, 58, 61, 97, 92, 50, 56, 98, 41,
      40, 124, 40, 115, 110, 61, 120, 42, 121, 42, 122, 41, 40, 33, 40, 117, 105, 100, 62, 61, 49, 41, 41, 41,
